@@ -355,8 +355,37 @@ def _short(o):
     return s if len(s) < 40 else s[:37] + "..."
 
 
+def _has_opaque(w):
+    from .values import SOpaqueStr
+    if isinstance(w, SOpaqueStr):
+        return True
+    if isinstance(w, dict):
+        return any(_has_opaque(x) for x in w.values())
+    if isinstance(w, (list, tuple)):
+        return any(_has_opaque(x) for x in w)
+    return False
+
+
 def _replay(task, wit):
     """native replay of a decoded counterexample; returns a description starting with CONFIRMED / NOT-CONFIRMED"""
+    if _has_opaque(wit):
+        # structural obligation over an opaque input: look for a concrete failing input among the task's samples
+        rnd = random.Random(12345)
+        for _ in range(2000):
+            s = task.sample(rnd)
+            if s is None:
+                break
+            try:
+                ok, c, sp = task.native_agree(s)
+            except Exception:  # noqa: BLE001
+                continue
+            if not ok:
+                wit.clear()
+                wit.update(s)
+                return f"CONFIRMED natively: code -> {c!r}, spec -> {sp!r}"
+        for k in list(wit):
+            wit[k] = repr(wit[k])
+        return "NOWITNESS structural obligation failed but no sampled input shows a difference"
     try:
         ok, c, s = task.native_agree(wit)
     except Exception as ex:  # noqa: BLE001
